@@ -54,6 +54,24 @@ def _fields(s):
     return out
 
 
+def energies_of(spec):
+    """(total energies of the uninterrupted run, total energies of the log of the interrupted-and-restarted run, restart index)"""
+    keep = {}
+    orig = _fields
+
+    def with_energy(s):
+        out = orig(s)
+        keep.setdefault("e", []).append(float(s["energy"]))
+        return out
+    globals()["_fields"] = with_energy
+    try:
+        U, R, n_before, _g = run_case(spec)
+    finally:
+        globals()["_fields"] = orig
+    e = keep["e"]
+    return e[:len(U)], e[len(U):], n_before
+
+
 def _same_snap(a, b):
     for k in a:
         if k == "active":
@@ -177,8 +195,9 @@ def run(ctx):
             ctx.corr_mismatch("restart.model-split", {"K": K, "k": k, "te": te}, "uninterrupted %r restarted %r" % (la, lb))
 
     classes = ["Ehrenfest", "AdiabaticMD", "TrajectorySH"]
-    for i in range(ctx.budget(9, 150)):
-        cls = classes[i % 3]
+    nrandom = ctx.budget(9, 150)
+    for i in range(nrandom + ctx.budget(2, 12)):
+        cls = classes[i % 3] if i < nrandom else "TrajectorySH"
         K = int(rng.integers(4, 14))
         spec = dict(cls=cls, N=int(rng.integers(2, 4)), n=int(rng.integers(1, 3)), model_seed=int(rng.integers(1, 10 ** 6)),
                     dt=float(rng.choice([2.0, 5.0])), t0=float(rng.choice([0.0, 3.5])), K=K, rule=["max_steps", "max_time"][(i // 3) % 2],
@@ -191,9 +210,21 @@ def run(ctx):
             spec["dt"] = float(rng.choice([20.67, 0.1, 4.7, 1.0 / 3.0]))
             spec["K"] = K = int(rng.integers(20, 46))
             spec["zetas"] = [float(v) for v in 0.2 + 0.8 * rng.random(K + 4)]
+        if cls == "TrajectorySH" and (i // 3) % 2 == 1:
+            # small thresholds: hops happen, and some interruption points fall right after a step with an accepted hop
+            spec["zetas"] = [float(v) for v in 0.08 * rng.random(spec["K"] + 4)]
+            spec["many_restarts"] = True
         if i % 6 == 5:
             spec.update(builtin=str(rng.choice(["simple", "dual", "extended"])), x0=-3.0, p0=float(rng.uniform(8, 20)))
-        ks = range(1, K) if ctx.thorough() else sorted(set(int(v) for v in rng.integers(1, K, size=3 if K < 20 else 8)))
+        if i >= nrandom:
+            # directed: FSSH through a crossing with tiny thresholds, EVERY interruption point - some fall right after a step with
+            # an accepted hop, where the active state of the last snapshot differs from the one before it
+            K = int(rng.integers(24, 36))
+            spec = dict(cls="TrajectorySH", builtin=["simple", "dual"][i % 2], x0=-1.5, p0=float(rng.uniform(14, 22)), N=2, n=1, model_seed=1,
+                        dt=10.0, t0=0.0, K=K, rule="max_steps", pitch=int(rng.integers(1, 9)),
+                        zetas=[float(v) for v in 0.02 * rng.random(K + 4)], many_restarts=True)
+        K = spec["K"]
+        ks = range(1, K) if (ctx.thorough() or spec.pop("many_restarts", False)) else sorted(set(int(v) for v in rng.integers(1, K, size=3 if K < 20 else 8)))
         for k in ks:
             a = dict(spec, k=int(k))
             ok, obs, req, text = oracle_restart(a)
